@@ -279,12 +279,22 @@ class CallStack(deque):
             if cells.is_cached:
                 graph.add_node(node)
 
+        carried = []
         while self.refstack:
             if self.refstack[-1][0] == self.counter:
                 _, ref = self.refstack.pop()
-                cells.model.refgraph.add_edge(ref, node)
+                if cells.is_cached:
+                    cells.model.refgraph.add_edge(ref, node)
+                else:
+                    # An uncached node holds no value to be cleared.
+                    # Hand its attribute references over to its caller.
+                    carried.append(ref)
             else:
                 break
+
+        if carried and self:
+            for ref in reversed(carried):
+                self.refstack.append((self.counter - 1, ref))
 
         return node
 
